@@ -5,6 +5,7 @@ import Knx.Text
 import Knx.TunnelText
 import Knx.RouterText
 import Knx.Sock
+import Knx.CloseOnce
 
 namespace Driver
 open Knx Knx.Text
@@ -91,11 +92,22 @@ def runWire (op : String) (args : List String) : Option String :=
     pure (" ; ".intercalate (out.map (fun v => " ".intercalate (service v)) ++ ["end"]))
   | _, _ => none
 
+/-- "crt <closers> <senders> <reader> <traffic>": `closers` goroutines call Close together on a usable
+    socket.  The model runs them under a round-robin schedule long enough for all to finish (by
+    Props.C10.Closers the outcome below is the same for EVERY schedule in which all have returned) -/
+def runClosers (args : List String) : Option String := do
+  let c ← (← args[0]?).toNat?
+  let sched := (List.range 7).flatMap (fun _ => List.range c)
+  let s := Knx.Once.run (Knx.Once.init c) sched
+  let ret := (s.pcs.filter (· == Knx.Once.Pc.returned)).length
+  pure s!"dreq={s.dreqs} returned={ret}/{c} inbound={if s.doneClosed && s.joined then "closed" else "open"} send={if s.sockClosed then "err" else "ok"} second=ok"
+
 def runLine (line : String) : String :=
   match line.splitOn " " with
   | [] => "bad-op"
   | "tun" :: _ => (Knx.Tun.runScript line).getD "bad-op"
   | "rtr" :: _ => (Knx.Rtr.runScript line).getD "bad-op"
+  | "crt" :: args => (runClosers args).getD "bad-op"
   | op :: args =>
     match runWire op args with
     | some s => s
